@@ -85,6 +85,10 @@ BindAssign(s, b, hi) == [k |-> "assign", lhs |-> BindE(s.lhs, b, hi), rhs |-> Bi
 \* integer power; any other real exponent stays outside the exact domain.
 IntegralExp(e, st) ==
   IF e.k = "lit" THEN (IF e.t = "real" /\ e.d = 1 THEN ILit(e.n) ELSE e)
+  ELSE IF e.k = "un" THEN
+     (IF e.op = "-" /\ e.e.k = "lit"
+      THEN (IF e.e.t = "real" /\ e.e.d = 1 THEN [e EXCEPT !.e = ILit(e.e.n)] ELSE e)
+      ELSE e)
   ELSE IF e.k = "ref" /\ e.name \in DOMAIN st THEN
      (LET cl == st[e.name] IN
       IF cl.ex = <<>> /\ cl.d[1].t = "r" THEN (IF cl.d[1].d = 1 THEN ILit(cl.d[1].n) ELSE e)
